@@ -329,6 +329,10 @@ Proof.
   - clear -H. induction H as [|s al vs' altss' Hs Hr IH]; cbn [map]; constructor; assumption.
 Qed.
 
+(* x != y is the negation of x == y also when a NaN is involved (the only such pair among the six) *)
+Lemma rel_z_ne : forall x y, rel_z 1 x y = negb (rel_z 0 x y).
+Proof. intros x y. unfold rel_z. destruct (is_nan x || is_nan y); reflexivity. Qed.
+
 Lemma var_cmp_visit_ok : forall alts k a b, wfv alts a -> wfv alts b -> idx a = idx b ->
   var_cmp_visit alts k a b = Ok (rel_z k (val a) (val b)).
 Proof.
@@ -344,7 +348,7 @@ Proof.
   - destruct (Nat.eqb (idx a) (idx b)) eqn:E; cbn [negb andb]; [|reflexivity].
     apply Nat.eqb_eq in E. apply var_cmp_visit_ok; assumption.
   - destruct (Nat.eqb (idx a) (idx b)) eqn:E; cbn [negb andb orb rbind]; [|reflexivity].
-    apply Nat.eqb_eq in E. rewrite var_cmp_visit_ok by assumption. reflexivity.
+    apply Nat.eqb_eq in E. rewrite var_cmp_visit_ok by assumption. cbn [rbind]. rewrite rel_z_ne. reflexivity.
   - destruct (Nat.ltb (idx a) (idx b)) eqn:E1; [reflexivity|].
     destruct (Nat.ltb (idx b) (idx a)) eqn:E2; [reflexivity|].
     apply Nat.ltb_ge in E1, E2. apply var_cmp_visit_ok; [assumption|assumption|lia].
